@@ -52,13 +52,14 @@ class Cmp:
                     out += [m['offset'] + i * m['elem_size'] + d for d in self.dead_offs(ns, fuel - 1)]
         return out
 
-    def struct_rows(self, s):
+    def struct_rows(self, s, path, desc):
         n, size = s['short'], s['sizeof']
-        r = self.res.get(n) or {}
+        r = gen_c02.path_result(self.res, n, path) or {}
+        table = 'layout@' + desc
         rows = []
 
         def add(kind, member, a, b, text, **case):
-            rows.append(('layout', kind, n, member, a, b, text, dict(case, table='layout', kind=kind, struct=n, member=member,
+            rows.append((table, kind, n, member, a, b, '[%s] %s' % (desc, text), dict(case, table=table, path=path, kind=kind, struct=n, member=member,
                                                                      python=(self.specs.get(n) or {}).get('py'))))
         bs = r.get('bytes') or []
         ign = {x['attribute'] for x in self.names.get('ignore', []) if x['struct'] == n}
@@ -179,8 +180,19 @@ def spec_diff(r):
     rows = []
     if len(r['layouts']) != len([s for s in r['layouts']]):
         pass
-    for s in r['layouts']:
-        rows += c.struct_rows(s)
+    ref = {s['short']: gen_c02.path_result(r['probe'], s['short'], 'explicit') or {} for s in r['layouts']}
+    for path, desc in gen_c02.PATHS:
+        for s in r['layouts']:
+            rows += c.struct_rows(s, path, desc)
+        # every way of reading names the same fixed attributes, byte for byte (where both could be observed)
+        for s in r['layouts']:
+            a, b = ref[s['short']].get('bytes') or [], (gen_c02.path_result(r['probe'], s['short'], path) or {}).get('bytes') or []
+            diff = [(x['byte'], x['fixed'], y['fixed']) for x, y in zip(a, b) if x['observed'] and y['observed'] and x['fixed'] != y['fixed']]
+            if len(a) != len(b) or diff:
+                rows.append(('layout@' + desc, 'call-paths-observe-different-attributes', s['short'], '', 0, 0,
+                             '[%s] struct %s: bytes feed different attributes than on the explicit-version path: %r' % (desc, s['short'], diff[:6]),
+                             {'table': 'layout@' + desc, 'path': path, 'kind': 'call-paths-observe-different-attributes', 'struct': s['short'], 'member': '',
+                              'differences (byte, explicit path, this path)': diff[:20]}))
     # README claims, recomputed
     for s in r['layouts']:
         off, ok = 0, True
@@ -249,14 +261,14 @@ def run(ctx):
     # a struct without counterpart shows in the model as an empty probe row (size mismatch etc.); name it once
     unmatched = {n for n, _ in r['unmatched']}
     for row in corpus_rows():       # rows that failed in the past: re-evaluated first, reported like any other row
-        again = any((s[0], s[1], s[2], s[3]) == tuple(row.get(k) for k in ('table','kind','struct','member')) for s in spec)
+        again = any((s[1], s[2], s[3]) == tuple(row.get(k) for k in ('kind', 'struct', 'member')) for s in spec)
         ctx.count('corpus row ' + ('mismatching again' if again else 'agrees now'))
     spec_keys = {s[:6] for s in spec if s[1] != 'no-python-counterpart' and s[2] not in unmatched}
     model_keys = {m for m in model if m[2] not in unmatched}
     for table, kind, struct, member, a, b, text, case in spec:
         if struct in unmatched and kind != 'no-python-counterpart':
             continue
-        ctx.violation({'table': table, 'kind': kind, 'struct': struct, 'member': member}, text, case)
+        ctx.violation({'table': table.split('@')[0], 'path': case.get('path', ''), 'kind': kind, 'struct': struct, 'member': member}, text, case)
     if model_keys != spec_keys:
         ctx.broken_correspondence('the extracted Coq comparison and the check\'s own comparison name different rows: only model %r, only check %r'
                                   % (sorted(model_keys - spec_keys)[:5], sorted(spec_keys - model_keys)[:5]),
@@ -268,9 +280,10 @@ def run(ctx):
     raise_only, implicit, by_partition, perturb = [], [], [], 0
     cmpo = Cmp(r)
     for s in lay:
-        pr = res.get(s['short']) or {}
+        for path, _ in (gen_c02.PATHS if 'only' not in (res.get(s['short']) or {}) else [('only', '')]):
+            perturb += 2 * sum(b['observed'] + b['raised'] for b in ((res.get(s['short']) or {}).get(path) or {}).get('bytes') or [])
+        pr = gen_c02.path_result(res, s['short'], 'explicit') or {}
         bs = pr.get('bytes') or []
-        perturb += sum(b['observed'] + b['raised'] for b in bs)
         pattrs = pr.get('attributes') or []
         for m in s['members']:
             ctx.case((s['short'], m['name']))
@@ -290,7 +303,9 @@ def run(ctx):
         'exhaustive': True,
         'rule': 'every P1_ALIGNAS(4) struct in src/point_one/fusion_engine/messages/*.h x every top-level member x every byte of the fixed part '
                 '(and the 8 bytes after it) x %d XOR masks per byte (more are tried, up to all 255, when unpack raises), each with a zero and a 0x01 tail; '
+                'message payloads are probed on three call paths: unpack(buffer, message_version=MESSAGE_VERSION), unpack(buffer) and FusionEngineDecoder.on_data(); '
                 'a case is one member or one byte.' % patterns,
+        'call_paths': [d for _, d in gen_c02.PATHS],
         'structs': len(lay), 'message_structs': sum(1 for s in r['specs'] if s['kind'] == 'payload'),
         'substructures': sum(1 for s in r['specs'] if s['kind'] != 'payload'), 'members': sum(len(s['members']) for s in lay),
         'fixed_part_bytes': nbytes, 'perturbations_run': perturb, 'patterns_per_byte': patterns,
@@ -303,8 +318,8 @@ def run(ctx):
         'mismatching_rows': len(spec),
     })
     ctx.sample({'PoseMessage members': [(m['name'], m['offset'], m['size']) for m in cmpo.by['PoseMessage']['members'][:6]]})
-    pm = res.get('PoseMessage', {}).get('bytes', [])
-    ctx.sample({'PoseMessage probe bytes 16..19': [{k: b[k] for k in ('byte', 'fixed', 'var', 'raised', 'pack_changed')} for b in pm[16:20]]})
+    pm = (gen_c02.path_result(res, 'PoseMessage', 'default') or {}).get('bytes', [])
+    ctx.sample({'PoseMessage probe bytes 16..19 (default-version path)': [{k: b[k] for k in ('byte', 'fixed', 'var', 'raised', 'pack_changed')} for b in pm[16:20]]})
     ctx.trusted_base += ['Coq 8.16.1 kernel + vm_compute', 'clang++-14 and g++ as evaluators of the C++ layout (three outputs must agree; _MSC_VER undefined, x86-64)',
                          'translators/gen_c03.py tokenizer (finds the P1_ALIGNAS(4) structs; fail closed) and translators/gen_c02.py (dump parser)',
                          'harness/py/c02_probe.py: what "an attribute changed" means (canonical deep comparison, NaN-safe), XOR masks, zero / 0x01 tails',
@@ -320,7 +335,7 @@ def replay(ctx, rec):
     r = gen_c02.generate(patterns=3, use_cache=False)
     spec = spec_diff(r)
     key = (case.get('table'), case.get('kind'), case.get('struct'), case.get('member'))
-    hit = [s for s in spec if (s[0], s[1], s[2], s[3]) == key]
+    hit = [s for s in spec if (s[0], s[1], s[2], s[3]) == key or (s[1], s[2], s[3]) == key[1:] and '@' not in (key[0] or '')]
     print('recorded row :', json.dumps({k: v for k, v in case.items() if k != 'observations'}, default=str))
     for s in hit:
         print('SPEC  (check) : still mismatching:', s[6])
@@ -334,10 +349,13 @@ def replay(ctx, rec):
     s = next((x for x in r['layouts'] if x['short'] == case.get('struct')), None)
     if s:
         print('IMPL C++      : sizeof %d; members %r' % (s['sizeof'], [(m['name'], m['offset'], m['size']) for m in s['members'] if not case.get('member') or m['name'] == case.get('member')]))
-        pr = r['probe'].get(s['short'], {})
-        print('IMPL Python   : %s min_size=%s consumed=%s packed_len=%s' % (pr.get('py'), pr.get('min_size'), pr.get('consumed_exact'), pr.get('packed_len')))
-        for m in s['members']:
-            if m['name'] == case.get('member'):
-                for b in (pr.get('bytes') or [])[m['offset']:m['offset'] + m['size']]:
-                    print('                byte %d: fixed=%r var=%r raised=%d pack_changed=%r' % (b['byte'], b['fixed'], b['var'], b['raised'], b['pack_changed']))
+        for path, desc in gen_c02.PATHS:
+            if case.get('path') not in (None, '', path) and 'only' not in r['probe'].get(s['short'], {}):
+                continue
+            pr = gen_c02.path_result(r['probe'], s['short'], path) or {}
+            print('IMPL Python   : [%s] %s min_size=%s consumed=%s packed_len=%s' % (desc, pr.get('py'), pr.get('min_size'), pr.get('consumed_exact'), pr.get('packed_len')))
+            for m in s['members']:
+                if m['name'] == case.get('member'):
+                    for b in (pr.get('bytes') or [])[m['offset']:m['offset'] + m['size']]:
+                        print('                byte %d: fixed=%r var=%r raised=%d pack_changed=%r' % (b['byte'], b['fixed'], b['var'], b['raised'], b['pack_changed']))
     return 1 if hit else 0
